@@ -18,6 +18,7 @@ STUB_SOURCES = {
     "xdsl.dialects.func": "xdsl_dialects_func.py",
     "xdsl.dialects.linalg": "xdsl_dialects_linalg.py",
     "xdsl.builder": "xdsl_builder.py",
+    "minimalloc": "minimalloc.py",
     "xdsl.utils.hints": "xdsl_utils_hints.py",
     "xdsl.pattern_rewriter": "xdsl_pattern_rewriter.py",
     "xdsl.rewriter": "xdsl_pattern_rewriter.py",
